@@ -119,7 +119,7 @@ theorem c18_fits_mono {L : Type} (S : ScalarOps L) (F : FmtFacts) (lim lim' : Li
     up to 1024 elements nested up to 1024 deep, nested T / Path / slice arguments whose text
     has up to 1024 characters. -/
 theorem c18_within_min_limit (F : Facts) (hwf : WF F = true) (x : C18.Obj Scalar)
-    (h : fitsObj pyScalar F.fmt (Limits.uniform minLimit) x = true) :
+    (h : fitsObj pyScalar F.fmt (Limits.uniform minLimit F.lim.plainSeg) x = true) :
     fitsObj pyScalar F.fmt F.lim x = true :=
   c18_fits_mono pyScalar F.fmt _ _ (wf_limits_ge hwf)
     (pyScalar_fits_mono _ _ (wf_limits_ge hwf)) x h
@@ -299,10 +299,24 @@ example : validObj (.pobj "A" [.attr ['b'], .seg (.lit (.str [97]))] : C18.Obj S
 example : validT [.call [.path "T" exP] []] = true := by
   simp [exP, validT, validStep, validArg, Arg.isSegArg, aOk, Step.isSeg]
 
-/-- the scalars fit: ints of 41 digits, a 31-character string (both past reprlib's defaults) -/
-example : fitsObj pyScalar F1 (Limits.uniform minLimit) (.tobj "T" exP) = true := by
+/-- inside the limits: `Path('a', T.b.__star__(), 2)` … -/
+example : fitsObj pyScalar F1 (Limits.uniform minLimit true) (.tobj "T" exP) = true := by
   simp [exP, fitsObj, fitsSteps, fitsStep, fitsArg, fitsLit, pyScalar, Obj.steps, nameFits, isDunder, dunder,
     Limits.uniform, minLimit]
+
+/-- `T(10**40, [(), (1,), {'k': {2, 3}}, frozenset(), b'x'])['q' * 31]` -/
+def exBig : List (Step Scalar) :=
+  [.call [.lit (.int (10 ^ 40)),
+          .seq .list [.seq .tuple [], .seq .tuple [.lit (.int 1)],
+                      .dict [(.lit (.str [107]), .seq .set [.lit (.int 2), .lit (.int 3)])],
+                      .seq .frozenset [], .lit (.bytes [120])]] [],
+   .item (.one (.lit (.str (List.replicate 31 113))))]
+
+/-- … and an int of 41 digits, a 31-character string (both past reprlib's defaults), nested containers -/
+example : fitsObj pyScalar F1 (Limits.uniform minLimit true) (.tobj "T" exBig) = true := by
+  simp [exBig, fitsObj, fitsSteps, fitsStep, fitsItem, fitsArg, fitsLit, pyScalar, Obj.steps,
+    Limits.uniform, minLimit, Limits.maxOf, Scalar.fits, Scalar.text]
+  decide
 
 /-- the hypotheses of `c18_concat` are those of C01 -/
 example : C01.WF (C01.genEnv []) = true ∧
